@@ -189,7 +189,13 @@ def unpack_tool(tools, path, obs):
             if p.returncode == 0:
                 problems.append(("unpack/exit", "the library cannot open the file but e57-unpack exits 0"))
             return problems
-        lib_fails = any(pc.get("raw_end", "none") != "none" or "raw_open_err" in pc for pc in obs["pointclouds"]) or any("err" in b for im in obs["images"] for b in im["blobs"])
+        pc_fails = any(str(pc.get("raw_end", "none")).startswith("err") or "raw_open_err" in pc for pc in obs["pointclouds"])
+        lib_fails = pc_fails or any("err" in b for im in obs["images"] for b in im["blobs"])
+        if pc_fails and p.returncode == 0:
+            # the library reports an error while reading the points of this file: a CSV that silently stops at the
+            # error, delivered with exit status 0, is not "exactly the raw point values the library returns"
+            problems.append(("unpack/exit-ok-despite-read-error", "the raw iterator of the library ends with an error on this file but e57-unpack exits 0"))
+            return problems
         if p.returncode != 0:
             if not lib_fails:
                 problems.append(("unpack/exit", "failed on a file the library reads completely: %s" % p.stderr.decode(errors="replace")[-200:]))
